@@ -446,7 +446,9 @@ func (m Message) GetSysEx(bt *[]byte) bool {
 	}
 
 	if m[0] == 0xF0 && m[len(m)-1] == 0xF7 {
-		*bt = m[1 : len(m)-1]
+		if bt != nil {
+			*bt = m[1 : len(m)-1]
+		}
 		return true
 	}
 
